@@ -272,6 +272,8 @@ def run_emu_case(c):
             r = {"ovni": "1.1.0"}
             r.update(req)
             ptm[k] = {"ovni": {"require": r}}
+        for kk, vv in c.get("extra", {}).items():
+            ptm.setdefault(keys[0], {})[kk] = vv
         tracegen.write_trace(wd, desc, hist, per_thread_meta=ptm)
         r = emu.emu(build, wd, c.get("args", []))
         return c, r
@@ -341,6 +343,18 @@ def part_c(chk, plain, quick):
             # ... unless all models are forced on
             cases.append({"kind": "forced-all", "requires": [reqA, reqB], "events": sorted(en) + [x],
                           "expect_ok": True, "args": ["-a"], "expect_enabled": set(MODELS.values()) | {"O"}})
+    # a model is enabled exactly when ovni.require names it: attributes that merely look like a requirement
+    # (a version stored under the model's own name, a "require" object outside "ovni") neither enable a model
+    # nor take part in version gating
+    for name in opt:
+        mc, have = vers[name]
+        good = "%d.%d.%d" % have
+        for extra in ({name: {"version": good}}, {name: {"require": good}}, {"require": {name: good}}):
+            cases.append({"kind": "attribute-is-not-a-requirement", "requires": [{}], "extra": extra, "events": [mc],
+                          "expect_ok": False, "probe": mc})
+        for bad in ("%d.0.0" % (have[0] + 1), "nonsense"):
+            cases.append({"kind": "attribute-is-not-gated", "requires": [{name: good}], "extra": {name: {"version": bad}},
+                          "events": [mc], "expect_ok": True})
     # forcing all models on (-a) must not switch version gating off
     for c in list(cases):
         if c["kind"] in ("version", "malformed", "mixed-requirements"):
